@@ -305,15 +305,30 @@ def run(ctx):
     ctx.cov["space_size_closed_form"] = total_expected
     if ctx.n != total_expected:
         raise RuntimeError(f"enumerated {ctx.n} programs, closed form says {total_expected}")
+    # programs with non-Gaussian gates: differential run on the Fock simulator
+    from mc.checks import c03b
+
+    n0 = ctx.n
+    for r in ctx.pmap(c03b.work, c03b.tasks(quick), chunksize=4):
+        ctx.add(r)
+        if ctx.time_left() < 0:
+            ctx.close()
+            ctx.cap_hit("time budget hit in the non-Gaussian part")
+            break
+    ctx.cov["nongaussian_programs"] = ctx.n - n0
     ctx.assumptions += [
         "reference meaning of each operation transcribed from its docstring (mc/ref/opsem.py); equality of affine maps (X,Y,d) on the measurement-extended register decides equality for every input state",
         "parameters from a finite lattice containing exact inverse pairs, T=1, U U^-1, equal and different secondary parameters",
-        "non-Gaussian gates (Kgate, Vgate, CKgate) use the same Gate.merge rule as the Gaussian one-parameter gates and are not enumerated separately",
+        "programs with non-Gaussian gates (Kgate, Vgate, CKgate, also daggered) are judged by a differential run on the Fock simulator at cutoff 7 (c03b)",
     ]
 
 
 def replay(case):
     res = Res()
+    if case.get("nongaussian"):
+        from mc.checks import c03b
+
+        return c03b.replay(case)
     seq = [(l, tuple(m)) for l, m in case["seq"]]
     check_case(case["n"], seq, res, tuple(case.get("compilers", ())))
     return [(s, w) for s, w, _ in res.viol]
